@@ -194,7 +194,9 @@ func vestingObligations(w *World, r *Report, tm *Terms) {
 				return true
 			})
 			totalAmtKey := normField(total, "Amount", nil).Key()
-			usesTotal := share.Any(func(t *Term) bool { return t.Key() == totalAmtKey || (isField(t, "Amount") && t.Args[0].Key() == total.Key()) })
+			usesTotal := share.Any(func(t *Term) bool {
+				return t.Key() == totalAmtKey || (isField(t, "Amount") && t.Args[0].Key() == total.Key())
+			})
 			keyEntry := false
 			if entry != nil {
 				for _, kc := range keyComponents(s.key) {
